@@ -36,6 +36,21 @@ BODIES = [bytes([C['OP_TRUE']]), bytes([C['OP_FALSE']]), bytes([C['OP_VERIFY']])
 PRES = [b'', bytes([C['OP_TRUE']]), bytes([C['OP_PUSH0'], 7])]
 
 
+def big_body(total):
+    """a leaf body that makes the whole observed leaf script exactly `total` bytes long (pads with a pushed blob)"""
+    base = len(observed(b'\x00\x5a', b''))
+    tail = bytes([C['OP_POP0'], C['OP_TRUE']])
+    n = total - base - len(tail)
+    for hdr in (2, 3):
+        blob = n - hdr
+        if (hdr == 2 and 2 <= blob <= 255) or (hdr == 3 and blob >= 256):
+            return push(b'f' * blob) + tail
+    return bytes([C['OP_TRUE']])
+
+
+BIG_SIZES = [255, 256, 257, 300, 640, 1000, 1024]
+
+
 def shapes(n):
     """all binary tree shapes with n leaves as nested tuples / 'L'."""
     if n == 1:
@@ -142,7 +157,7 @@ def check_tree(shape, bodies, leaf_idx, pre, corruption=None, k1=0, k2=0):
     fails = []
     n = len(bodies)
     scripts = [observed(bytes([i, 0x5a]), bodies[i]) for i in range(n)]
-    if any(len(s) > 1000 for s in scripts):
+    if any(len(s) > 1024 for s in scripts):
         raise ValueError('leaf too large')
     if shape == 'L':
         raise ValueError('a tree needs two leaves')
@@ -154,7 +169,12 @@ def check_tree(shape, bodies, leaf_idx, pre, corruption=None, k1=0, k2=0):
     pairs = proof_pairs(leaf)
     info = {'depth': len(pairs)}
     if corruption is None:
-        w = leaf.unlocking_script().bytes
+        try:
+            w = leaf.unlocking_script().bytes
+        except BaseException as e:  # noqa
+            if isinstance(e, (KeyboardInterrupt, SystemExit)):
+                raise
+            return [('merkle/unlocking_script-raises-%s' % type(e).__name__, 'leaf of %d bytes: %s' % (len(leaf.script.bytes), str(e)[:80]))], info
         if w != enc_pairs(pairs):
             fails.append(('merkle/unlocking_script-is-not-the-proof-path', ''))
         ok, seen = run_proof(pre, w, lock)
@@ -213,9 +233,22 @@ def check_tree(shape, bodies, leaf_idx, pre, corruption=None, k1=0, k2=0):
 def check_builder(builder, n, pre_idx):
     """builder outputs for n leaves: the i-th unlocking script runs input leaf i and nothing else."""
     fails = []
-    scripts = [observed(bytes([i, 0xb0]), BODIES[(i + n) % 2 * 0 + (0 if i % 3 else 4)]) for i in range(n)]
+    scripts = [observed(bytes([i, 0xb0]), BODIES[0 if i % 3 else 4] if (i + n) % 5 else big_body(BIG_SIZES[(i + n) % len(BIG_SIZES)]))
+               for i in range(n)]
     leaves_in = [T.Script.from_bytes(s) for s in scripts]
     env.pin_random(b'c04-%d' % n)
+    try:
+        return _check_builder(builder, n, pre_idx, scripts, leaves_in)
+    except BaseException as e:  # noqa
+        if isinstance(e, (KeyboardInterrupt, SystemExit)):
+            raise
+        return [('merkle-builder/%s-raises-%s' % (builder, type(e).__name__), 'n=%d: %s' % (n, str(e)[:80]))]
+    finally:
+        env.unpin_random()
+
+
+def _check_builder(builder, n, pre_idx, scripts, leaves_in):
+    fails = []
     try:
         if builder in ('prioritized', 'balanced'):
             mk = T.make_merklized_script_prioritized if builder == 'prioritized' else T.make_merklized_script_balanced
@@ -239,7 +272,7 @@ def check_builder(builder, n, pre_idx):
                 return [('merkle-builder/%s-drops-a-leaf' % builder, 'n=%d' % n)]
             unl = [found[s].unlocking_script().bytes for s in scripts]
     finally:
-        env.unpin_random()
+        pass
     if len(unl) < n:
         return [('merkle-builder/%s-returns-too-few-unlocking-scripts' % builder, 'n=%d got %d' % (n, len(unl)))]
     pre = PRES[pre_idx % len(PRES)]
@@ -312,6 +345,10 @@ def task_shapes(ctx):
         if idx % ctx.nshards != ctx.shard:
             continue
         bodies = [BODIES[(i * 5 + idx) % len(BODIES)] for i in range(n)]
+        # leaf sizes on both sides of 2^8 and up to the item limit, in rotating positions
+        bodies[idx % n] = big_body(BIG_SIZES[idx % len(BIG_SIZES)])
+        if n >= 4:
+            bodies[(idx + 2) % n] = big_body(BIG_SIZES[(idx + 3) % len(BIG_SIZES)])
         for li in range(n):
             for pre in PRES:
                 _do_tree(ctx, shape, bodies, li, pre, None, 0, 0)
@@ -354,7 +391,10 @@ def rand_case(draw):
     shape = draw(rand_shape(n))
     bodies = []
     for _ in range(n):
-        if draw(st.integers(0, 2)):
+        r = draw(st.integers(0, 5))
+        if r == 0:
+            bodies.append(big_body(draw(st.sampled_from(BIG_SIZES))))
+        elif r < 4:
             bodies.append(draw(st.sampled_from(BODIES)))
         else:
             t = draw(script_tree(2, True))
